@@ -1325,14 +1325,15 @@ def tool_level(ctx, tools, api, harness, stats):
         images.append((lab + ":valid", img, []))
         stats.setdefault("forge_compressors", []).append(COMP_NAMES[cid] + ("+meta" if cmeta else ""))
     codec.close()
-    # inode mode fields whose file type bits contradict the inode type (the readers must derive the type from the inode type)
-    for kind, bits in (("lnk", 0o120000), ("dir", 0o040000), ("all", 0o170000)):
+    # inode mode fields whose file type bits contradict the inode type (set_mode must derive the type from the inode type:
+    # a regular file presented as a symlink would have its block list printed as a C string, ...)
+    for kind, base_types, bits in (("file-as-lnk", (2,), 0o120000), ("file-as-dir", (2,), 0o040000), ("lnk-as-reg", (3,), 0o100000),
+                                   ("special-as-lnk", (4, 5, 6, 7), 0o120000), ("all-bits", (2, 3, 4, 5, 6, 7), 0o170000)):
         fg = F.sample_tree(__import__("random").Random(5), 4096)
-        img = bytearray(fg.build())
-        for off, w, name in fg.fields:
-            if name.endswith(".mode") and w == 2:
-                img[off:off + 2] = struct.pack("<H", (struct.unpack("<H", img[off:off + 2])[0] & 0o7777) | bits)
-        images.append(("probe:mode-%s" % kind, bytes(img), ["mode-type-bits"]))
+        for nd in fg.nodes:
+            if nd.base_type() in base_types:
+                nd.f["mode"] = (F.MODE[nd.base_type()] & 0o7777) | bits
+        images.append(("probe:mode-%s" % kind, fg.build(), ["mode-type-bits"]))
     comps = [COMP_NAMES[c] for c in comp_ids]
     reals = real_images(ctx, tools["gensquashfs"], max(2, len(comps)) if quick else 2 * len(comps), comps)
     for k, img in enumerate(reals):
